@@ -98,8 +98,15 @@ def read_with(folder, P, lays, name, eta, nd, t, conv, dtype):
         g.getAllData()[:] = -777.0
         g.loadFromFile(folder, t, conv)
         L = g.getLayout(name)
-        return {'blk': np.array(g.getAllData(), copy=True), 'starts': [int(x) for x in L.starts], 'ends': [int(x) for x in L.ends],
-                'coords': [[int(x) for x in L.mpi_starts(k)].index(int(L.starts[k])) for k in range(nd)]}
+        out = {'blk': np.array(g.getAllData(), copy=True), 'starts': [int(x) for x in L.starts], 'ends': [int(x) for x in L.ends],
+               'coords': [[int(x) for x in L.mpi_starts(k)].index(int(L.starts[k])) for k in range(nd)]}
+        # the loaded field must be the grid's field, not only what getAllData() shows right after the load: change layout and back
+        others = [n for n in lays if n != name]
+        if others:
+            g.setLayout(others[0])
+            g.setLayout(name)
+            out['after_layout_change'] = np.array(g.getAllData(), copy=True)
+        return out
     return lu.run_ranks(int(np.prod(P)), body)
 
 
@@ -171,6 +178,10 @@ def roundtrip_cases(chk, drv, work):
             sl = tuple(slice(s, e) for s, e in zip(o['starts'], o['ends']))
             if not same_bits(o['blk'], np.ascontiguousarray(want[sl]).astype(o['blk'].dtype)):
                 chk.fail('C18:roundtrip', 'a process does not get back, bit for bit, its block of the written global field', dict(case, rank=ri))
+                break
+            if 'after_layout_change' in o and not same_bits(o['after_layout_change'], np.ascontiguousarray(want[sl]).astype(o['blk'].dtype)):
+                chk.fail('C18:load-not-in-grid-memory', 'after loadFromFile, a layout change and back does not show the loaded field '
+                         '(the load did not go into the grid\'s own memory)', dict(case, rank=ri))
                 break
         if exact_payload:
             dimsW = [[npts[ord_[k]], (list(PW) + [1] * nd)[k]] for k in range(nd)]
@@ -335,6 +346,19 @@ def constants_cases(chk, drv, work):
                      {'order': [k for k, _ in items]})
             continue
         got = public_attrs(c)
+        # oracle (no model): every symbolic entry equals its expression evaluated, in dependency order, with THIS file's values
+        import math as _m
+        env = {k: v for k, v in items if not isinstance(v, str)}
+        pend = {k: v for k, v in items if isinstance(v, str)}
+        while pend:
+            for k in list(pend):
+                if all(d in env for d in DEPS[k]):
+                    env[k] = eval(pend.pop(k), {'pi': _m.pi, '__builtins__': {}}, dict(env))
+        badk = sorted(k for k in DEPS if got.get(k) != env[k])
+        if badk:
+            chk.fail('C18:constants-expr', 'a symbolic entry of the parameter file does not equal its expression evaluated with the values of the file',
+                     {'order': [k for k, _ in items], 'values': {k: v for k, v in items if isinstance(v, float)}},
+                     expected={k: env[k] for k in badk}, actual={k: got.get(k) for k in badk})
         if it % 5 != 0:
             if got != ref:
                 bad = sorted(k for k in ref if got.get(k) != ref[k])
@@ -542,7 +566,7 @@ def driver_cases(chk, drv, prog, work, plan):
     return du
 
 
-QUICK_PLAN = [(1, 1, 1, 1, 2, 1), (2, 1, 3, 2, 1, 1), (3, 2, 2, 1, 1, 2)]
+QUICK_PLAN = [(1, 1, 1, 1, 2, 1), (2, 1, 3, 2, 1, 1), (3, 2, 2, 1, 1, 2), (2, 1, 2, 1, 1, 1)]   # (saveStep, N, M, ranks1, ranks2, ranks_ref); last: N % S != 0, M % S == 0
 THOROUGH_PLAN = ([(S, N, M, 1, 1, 1) for S in (1, 2, 3) for (N, M) in ((1, 2), (2, 1))] +
                  [(2, 1, 4, 1, 1, 1), (3, 2, 5, 2, 2, 2), (4, 3, 2, 1, 1, 1)] +
                  [(S, 1, 2, r1, r2, 1) for S in (1, 2, 3) for (r1, r2) in ((2, 3), (4, 1), (3, 4))])
